@@ -23,12 +23,14 @@ pub mod c30;
 pub mod c29;
 pub mod c29_core;
 pub mod doc;
+pub mod fnt;
 pub mod obs;
 
 pub fn dispatch(ctx: &Ctx) -> i32 {
     let mut rec = Recorder::new();
     let r = match ctx.id.as_str() {
         "DOC" => doc::run(ctx, &mut rec),
+        "FNT" => fnt::run(ctx, &mut rec),
         "OBS" => obs::run(ctx, &mut rec),
         "C01" => c01::run(ctx, &mut rec),
         "C07" => c07::run(ctx, &mut rec),
